@@ -115,7 +115,18 @@ def g1_corpus(ctx, maxeff, sample):
     idx = tlc.read_ndjson(out)
     total = len(idx)
     if sample and len(idx) > sample:
-        idx = ctx.rng.sample(idx, sample)
+        # every enumerated effect combination at least once (one seeded choice of invariant / initial state each),
+        # the rest of the budget at random
+        groups = {}
+        for c in idx:
+            groups.setdefault(tuple(c["effs"]), []).append(c)
+        keep = [ctx.rng.choice(groups[k]) for k in sorted(groups)]
+        if len(keep) > sample:
+            # more combinations than budget: still one variant per combination (the budget is a target, not a cap)
+            idx = keep
+        else:
+            rest = [c for c in idx if c not in keep]
+            idx = keep + ctx.rng.sample(rest, min(len(rest), sample - len(keep)))
     cases = []
     for c in idx:
         P = json.loads(json.dumps(H["template"]))
